@@ -175,7 +175,8 @@ def catalogue(ao):
     add("centroiders.centre_of_gravity", CE.centre_of_gravity, ["IMG"], lambda f, a: f(a[0], threshold=0.2))
     add("centroiders.centre_of_gravity[stack]", CE.centre_of_gravity, ["STACK"], lambda f, a: f(a[0], threshold=0.2),
         batch=dict(n=3, single=lambda f, a, i: f(a[0][i].copy(), threshold=0.2), item=lambda r, i: r[:, i]))
-    add("centroiders.centre_of_gravity[min_threshold]", CE.centre_of_gravity, ["STACK"], lambda f, a: f(a[0], threshold=0.1, min_threshold=2.0))
+    add("centroiders.centre_of_gravity[min_threshold]", CE.centre_of_gravity, ["STACK"], lambda f, a: f(a[0], threshold=0.1, min_threshold=2.0),
+        batch=dict(n=3, single=lambda f, a, i: f(a[0][i].copy(), threshold=0.1, min_threshold=2.0), item=lambda r, i: r[:, i]))
     add("centroiders.correlation_centroid[stack]", CE.correlation_centroid, ["STACK", "IMG2"], lambda f, a: f(a[0], a[1], 0.1, 2),
         batch=dict(n=3, single=lambda f, a, i: f(a[0][i:i + 1].copy(), a[1].copy(), 0.1, 2)[:, 0], item=lambda r, i: r[:, i]))
     add("centroiders.correlation_centroid[2d]", CE.correlation_centroid, ["IMG", "IMG2"], lambda f, a: f(a[0], a[1], 0.1, 1))
@@ -222,6 +223,11 @@ def catalogue(ao):
     add("infinitephasescreen.PhaseScreenVonKarman[seeded]", IS.PhaseScreenVonKarman, [], lambda f, a: _rows(f(4, 0.5, 0.2, 20.0, random_seed=3)))
     add("infinitephasescreen.PhaseScreenKolmogorov[seeded]", IS.PhaseScreenKolmogorov, [],
         lambda f, a: _rows(f(4, 0.5, 0.2, 20.0, random_seed=4, stencil_length_factor=2)))
+    add("infinitephasescreen.PhaseScreenVonKarman[seed 0]", IS.PhaseScreenVonKarman, [], lambda f, a: _rows(f(4, 0.5, 0.2, 20.0, random_seed=0)))
+    add("infinitephasescreen.PhaseScreenKolmogorov[seed 0]", IS.PhaseScreenKolmogorov, [],
+        lambda f, a: _rows(f(4, 0.5, 0.2, 20.0, random_seed=0, stencil_length_factor=2)))
+    add("phasescreen.ft_phase_screen[seed 0]", PH.ft_phase_screen, [], lambda f, a: f(0.15, 8, 0.1, 20.0, 0.01, seed=0))
+    add("phasescreen.ft_sh_phase_screen[seed 0]", PH.ft_sh_phase_screen, [], lambda f, a: f(0.15, 8, 0.1, 20.0, 0.01, seed=0))
     add("infinitephasescreen.PhaseScreenVonKarman[unseeded]", IS.PhaseScreenVonKarman, [], lambda f, a: _rows(f(4, 0.5, 0.2, 20.0)), exempt=True)
     add("phasescreen.ft_phase_screen[seeded]", PH.ft_phase_screen, [], lambda f, a: f(0.15, 8, 0.1, 20.0, 0.01, seed=1))
     add("phasescreen.ft_sh_phase_screen[seeded]", PH.ft_sh_phase_screen, [], lambda f, a: f(0.15, 8, 0.1, 20.0, 0.01, seed=2))
